@@ -127,6 +127,34 @@ def conditions_at(fn, line):
                 return
 
     visit_block(fn.block)
+    # a closure bound by `let f = |..| {..};` whose only other mention is `(C).then_some(f)` / `C.then(|| f)` is called
+    # under C only: C holds inside its body
+    for st, _ in A.find(fn.block, "Stmt::Local"):
+        pat = st["pat"]
+        if A.kind(pat) == "Pat::Type":
+            pat = pat["pat"]
+        init = st.get("init", {}).get("expr") if st.get("init") else None
+        if A.kind(pat) != "Pat::Ident" or init is None or A.kind(init) != "Expr::Closure" or not contains(init):
+            continue
+        nm_ = pat["ident"]["sym"]
+        # the binding's scope: the statements after it, up to and including the initialiser of a `let` that rebinds the name
+        scope = []
+        for blk, _b in list(A.find(fn.block, "Block")) + [(fn.block, ())]:
+            sts = blk.get("stmts") or []
+            if any(s_ is st for s_ in sts):
+                for s_ in sts[[i for i, q in enumerate(sts) if q is st][0] + 1 :]:
+                    scope.append(s_)
+                    if A.kind(s_) == "Stmt::Local" and nm_ in A.pat_idents(s_["pat"]):
+                        break
+                break
+        uses = [(x, ps) for s_ in scope for x, ps in A.walk(s_) if A.kind(x) == "Expr::Path" and A.path_str(x) == nm_]
+        if len(uses) != 1:
+            continue
+        x, ps = uses[0]
+        par = next((p for p in reversed(ps) if A.kind(p) not in ("Expr::Paren", "Expr::Group")), None)
+        if par is not None and A.kind(par) == "Expr::MethodCall" and par["method"]["sym"] == "then_some" and len(par["args"]) == 1 and A.peel(par["args"][0]) is x:
+            c_ = A.render(A.peel(par["receiver"]))
+            out.append("not(" + c_[1:] + ")" if c_.startswith("!") else c_)
     # consequences: `let` aliases inlined (`fields_count` -> `fields.len()`), a conjunction holds part-wise, the negation
     # of a disjunction negates every part
     als = A.aliases(fn)
